@@ -269,6 +269,8 @@ pub enum What {
     /// the sink of `side` stops being writable (poll_ready / flush / close stay Pending, nothing it has in flight is delivered):
     /// a peer that no longer reads, without any error
     Wedge { side: Side },
+    /// a slow link: while `on`, nothing that `side` has in flight is delivered (released by a later Hold{on: false})
+    Hold { side: Side, on: bool },
     /// virtual time advances by one keepalive interval (sides with `Case::keepalive` queue a Ping)
     Tick,
 }
